@@ -71,24 +71,53 @@ from . import tlc
 from .core import Check, MachineryError, workdir
 
 PID = "C20"
-N_DIRS, N_FILES, N_DIRNAMES, N_VARIANTS, N_SFX = 11, 21, 5, 9, 4
+N_DIRS, N_FILES, N_DIRNAMES, N_VARIANTS, N_SFX = 11, 21, 5, 20, 4
+LIGHT_VARIANTS = list(range(10, 21))        # the spelling variants of MC_C20!Variants: trees over LIGHT_CODES only
+LIGHT_EXTRA = [104, 501, 401, 102, 107, 10201]
 APPS = (("genapp", ("proj", "genapp")), ("pk.napp", ("proj", "pk", "napp")), ("extapp", ("site", "extapp")))
-PURGE_TOPS = ("comps", "outer", "assets", "components", "lib", "ui")
+PURGE_TOPS = ("comps", "outer", "assets", "components", "lib", "ui", "lnk", "conf")
 
 
 def _set(xs: Iterable[int]) -> str:
     return "{" + ",".join(str(x) for x in xs) + "}"
 
 
-def _written(d: Path, form: str) -> Any:
-    """How a directory is written in COMPONENTS.dirs / STATICFILES_DIRS."""
+def _spelled(base: str, root: Dict[str, Any], spell: str) -> str:
+    """The absolute path of a project directory under a spelling (Autodiscover!Spells); `base` is BASE_DIR as
+    the configuration spells it."""
+    pre = root["prefix"]
+    if spell == "alias":
+        if not root.get("alias"):
+            raise MachineryError(f"a mention through a link of a root without link: {root}")
+        return os.path.join(base, *root["alias"])
+    if spell == "slash":
+        return os.path.join(base, *pre) + "/"
+    if spell == "dot":
+        return os.path.join(base, *pre[:-1], ".", pre[-1])
+    if spell == "dotdot":
+        return os.path.join(base, "conf", "..", *pre)
+    if spell == "updown":
+        return os.path.join(base, *pre, "..", pre[-1])
+    if spell != "plain":
+        raise MachineryError(f"unknown spelling {spell!r}")
+    return os.path.join(base, *pre)
+
+
+def _written(s: str, form: str) -> Any:
+    """How a directory (its spelled path `s`) is written in COMPONENTS.dirs / STATICFILES_DIRS."""
     if form == "path":
-        return d
+        return Path(s)
     if form == "tuple":
-        return ("pfx", str(d))
+        return ("pfx", s)
     if form == "tuple-path":
-        return ("pfx", d)
-    return str(d)
+        return ("pfx", Path(s))
+    return s
+
+
+def _app_entry(e: Dict[str, Any]) -> str:
+    """An app_dirs entry [segs, spell] as the string written in the settings."""
+    s = "/".join(e["segs"])
+    return {"plain": s, "slash": s + "/", "dot": "./" + s}[e["spell"]]
 
 
 # ---------------------------------------------------------------- the world
@@ -105,6 +134,11 @@ class World:
         self.site = self.S / "site"
         for d in (self.proj, self.projb, self.site):
             d.mkdir()
+        for d in (self.proj, self.projb):
+            (d / "conf").mkdir()             # the settings directory: <BASE_DIR>/conf/.. is BASE_DIR
+            (d / "lnk").mkdir()              # symbolic links to component directories live here
+        os.symlink(self.proj, self.S / "pl")          # BASE_DIR through a link
+        os.symlink(self.projb, self.S / "plb")
         for name, rel in APPS:
             p = self.S.joinpath(*rel)
             p.mkdir(parents=True)
@@ -134,24 +168,41 @@ class World:
         if root["kind"] == "app":
             for name, rel in APPS:
                 pk = name.split(".")
-                if pre[:len(pk)] == pk and len(pre) == len(pk) + 1:
-                    return self.S.joinpath(*rel) / pre[-1]
+                if root["app"] == pk and pre[:len(pk)] == pk and len(pre) > len(pk):
+                    return self.S.joinpath(*rel).joinpath(*pre[len(pk):])
             raise MachineryError(f"no generated app for prefix {pre}")
         return (self.projb if root["globmeta"] else self.proj).joinpath(*pre)
+
+    def base_dir(self, bracket: bool, spell: str) -> Path:
+        """BASE_DIR as the configuration spells it."""
+        real = self.projb if bracket else self.proj
+        if spell == "dotdot":
+            return Path(os.path.join(str(real), "conf", ".."))
+        if spell == "alias":
+            return self.S / ("plb" if bracket else "pl")
+        return real
 
     def reset(self, roots: List[Dict[str, Any]]) -> None:
         """Remove every root of the previous case, create the (empty) roots of this one."""
         self.materialised = None
         for d in self.active:
             shutil.rmtree(d, ignore_errors=True)
-        for top in ("comps", "outer", "assets", "components", "lib", "ui"):
-            for base in (self.proj, self.projb):
+        for base in (self.proj, self.projb):
+            for top in ("comps", "outer", "assets", "components", "lib", "ui"):
                 shutil.rmtree(base / top, ignore_errors=True)
+            for ln in (base / "lnk").iterdir():
+                ln.unlink()
         self.active = [self.root_dir(r) for r in roots]
         if len(set(self.active)) != len(self.active):
             raise MachineryError("two roots of a case share a directory")
         for d in self.active:
             d.mkdir(parents=True)
+        for r, d in zip(roots, self.active):
+            if r.get("alias"):
+                ln = (self.projb if r["globmeta"] else self.proj).joinpath(*r["alias"])
+                if ln.parent.name != "lnk" or r["kind"] != "dirs":
+                    raise MachineryError(f"link of a root not understood: {r}")
+                os.symlink(d, ln)
 
     def mk(self, k: int, kind: str, parts: List[str]) -> None:
         p = self.active[k - 1].joinpath(*parts)
@@ -179,6 +230,7 @@ class World:
                 break
 
     def locate(self, filepath: str) -> Tuple[int, List[str]]:
+        """(root number, path below it) of a file given by its REAL path (links and ".." resolved)."""
         best = (0, [filepath])
         for i, d in enumerate(self.active):
             pre = str(d) + os.sep
@@ -189,22 +241,23 @@ class World:
     # -- settings ------------------------------------------------------
     def settings_for(self, roots: List[Dict[str, Any]], cfg: Dict[str, Any], dup_first: bool = False) -> Dict[str, Any]:
         """BASE_DIR / COMPONENTS / STATICFILES_DIRS that say what the abstract case says: COMPONENTS.dirs is the
-        list of roots with a "dirs" mention when cfg.dirs is "set" (possibly empty) and is not given otherwise,
-        STATICFILES_DIRS the list of roots with a "static" mention, app_dirs cfg.appnames when cfg.appdirs is
-        "set".  cfg.form: COMPONENTS as a dict, a dict with None for what is not given, or a ComponentsSettings."""
+        list of the "dirs" mentions of the roots (each under its spelling) when cfg.dirs is "set" (possibly empty)
+        and is not given otherwise, STATICFILES_DIRS the list of "static" mentions, app_dirs the entries
+        cfg.appnames (as spelled) when cfg.appdirs is "set", BASE_DIR the project directory spelled cfg.base.  cfg.form: COMPONENTS as a dict, a dict with None for what is not given, or a ComponentsSettings."""
         comp: Dict[str, Any] = {"autodiscover": False}
         dirs: List[Any] = []
         static: List[Any] = []
         bracket = any(r["globmeta"] for r in roots)
+        base = self.base_dir(bracket, cfg.get("base", "plain"))
         for r in roots:
             if r["kind"] == "app":
                 continue
-            d = self.root_dir(r)
+            if r["globmeta"] != bracket:
+                raise MachineryError("project directories of one case under two BASE_DIRs")
             for m in r["src"]:
-                if m["in"] == "dirs":
-                    dirs.append(_written(d, m["form"]))
-                elif m["in"] == "static":
-                    static.append(_written(d, m["form"]))
+                if m["in"] in ("dirs", "static"):
+                    (dirs if m["in"] == "dirs" else static).append(
+                        _written(_spelled(str(base), r, m.get("spell", "plain")), m["form"]))
                 elif m["in"] != "default" or r["prefix"] != ["components"]:
                     raise MachineryError(f"root mention not understood: {r}")
         if dup_first and dirs:
@@ -217,11 +270,10 @@ class World:
         elif cfg["form"] == "dict-none":
             comp["dirs"] = None
         if cfg["appdirs"] == "set":
-            comp["app_dirs"] = list(cfg["appnames"])
+            comp["app_dirs"] = [_app_entry(e) for e in cfg["appnames"]]
         elif cfg["form"] == "dict-none":
             comp["app_dirs"] = None
-        return {"BASE_DIR": self.projb if bracket else self.proj, "COMPONENTS": comp, "STATICFILES_DIRS": static,
-                "form": cfg["form"]}
+        return {"BASE_DIR": base, "COMPONENTS": comp, "STATICFILES_DIRS": static, "form": cfg["form"]}
 
     @contextmanager
     def configured(self, roots: List[Dict[str, Any]], cfg: Dict[str, Any], dup_first: bool = False):
@@ -272,7 +324,7 @@ def obs_scan(world: World, sfx: str) -> List[Dict[str, Any]]:
         fp = str(e.filepath)
         if not fp.startswith(pre):
             continue                          # django_components' own components/ directory
-        k, parts = world.locate(fp)
+        k, parts = world.locate(os.path.realpath(fp))     # a file is the same file under every spelling of its path
         rows.append({"k": k, "parts": parts, "dot": e.dot_path})
     rows.sort(key=lambda r: (r["k"], r["parts"]))
     return rows
@@ -295,13 +347,25 @@ def obs_auto(world: World) -> Dict[str, Any]:
         world.purge()
 
 
+def scan_or_raise(world: World, sfx: str) -> List[Dict[str, Any]]:
+    """obs_scan; an exception is recorded as one row of root 0 (Autodiscover!Raised)."""
+    try:
+        return obs_scan(world, sfx)
+    except Exception as e:  # noqa: BLE001  (the specification never raises)
+        return [{"k": 0, "parts": ["<" + type(e).__name__ + ">"], "dot": ""}]
+
+
 def agrees(got: List[Dict[str, Any]], rows: List[Dict[str, Any]]) -> bool:
-    """Python twin of Trace_C20!Agrees plus 'each once' (comparison only)."""
-    g = [(r["k"], tuple(r["parts"])) for r in got]
+    """Python twin of Trace_C20!Agrees (comparison only): the same files, each as often as the row says (the
+    specification: once), an admitted dotted path where the specification determines it."""
+    g: Dict[Tuple[int, Tuple[str, ...]], int] = {}
+    for r in got:
+        key = (r["k"], tuple(r["parts"]))
+        g[key] = g.get(key, 0) + 1
     want = {(r["k"], tuple(r["parts"])): r for r in rows}
-    if len(set(g)) != len(g) or set(g) != set(want):
+    if set(g) != set(want) or any(g[k] != want[k]["n"] for k in want):
         return False
-    return all(not want[(r["k"], tuple(r["parts"]))]["cmpdot"] or want[(r["k"], tuple(r["parts"]))]["dot"] == r["dot"]
+    return all(not want[(r["k"], tuple(r["parts"]))]["cmpdot"] or r["dot"] in want[(r["k"], tuple(r["parts"]))]["dots"]
                for r in got)
 
 
@@ -312,7 +376,7 @@ _exports: Dict[str, Tuple[List[Any], int, int]] = {}
 def replay_row(chk: Check, world: World, row: Dict[str, Any]) -> None:
     roots = row["roots"]
     # consecutive cases over the same directories and trees (the configuration family) share the files on disk
-    sig = json.dumps([[str(world.root_dir(r)) for r in roots],
+    sig = json.dumps([[[str(world.root_dir(r)), r.get("alias")] for r in roots],
                       [sorted([e["kind"], e["parts"]] for e in t) for t in row["trees"]]])
     if world.materialised != sig:
         world.reset(roots)
@@ -325,19 +389,19 @@ def replay_row(chk: Check, world: World, row: Dict[str, Any]) -> None:
     chk.count([row["label"], row["cfg"], [[r["prefix"], r["src"]] for r in roots], row["sfx"], row["trees"]],
               nontrivial=nontrivial)
     with world.configured(roots, row["cfg"]):
-        try:
-            got = obs_scan(world, row["sfx"])
-        except Exception as e:  # noqa: BLE001  (the specification never raises)
-            chk.violation(case, {"stage": "get_component_files", "exception": repr(e)})
-            return
+        got = scan_or_raise(world, row["sfx"])
         if not agrees(got, row["exp"]):
             detail = {"suffix": row["sfx"] or None, "expected": row["exp"], "observed": got,
                       "searched_roots": row["active"]}
-            if row["keys"] and agrees(got, row["dev"]):
-                for k in row["keys"]:
+            # a named deviation (or several at once) predicts exactly this outcome: known finding(s)
+            hits = sorted((a for a in row["devs"] if agrees(got, a["rows"])), key=lambda a: (len(a["keys"]), a["keys"]))
+            if hits:
+                for k in hits[0]["keys"]:
                     chk.violation(case, detail, key=k)
             else:
                 chk.violation(case, detail)
+            if got and got[0]["k"] == 0 and got[0]["parts"][0].startswith("<"):
+                return
         for e in row["load"]:
             chk.add("imports_checked")
             res = world.load(e["dot"], world.active[e["k"] - 1].joinpath(*e["parts"]))
@@ -355,7 +419,8 @@ def replay_row(chk: Check, world: World, row: Dict[str, Any]) -> None:
 
 def model_check_and_replay(chk: Check, world: World, max_entries: int, small: List[int],
                            variants: Optional[List[int]] = None, sfx: Optional[List[int]] = None,
-                           codes: Optional[List[int]] = None, cfg_sfx: Optional[List[int]] = None) -> None:
+                           codes: Optional[List[int]] = None, cfg_sfx: Optional[List[int]] = None,
+                           spelled_cfg_sfx: Optional[List[int]] = None) -> None:
     w = workdir("c20mc")
     if codes is None:
         codes = [d * 100 + n for d in range(1, N_DIRS + 1) for n in range(1, N_FILES + 1)] + \
@@ -366,6 +431,8 @@ def model_check_and_replay(chk: Check, world: World, max_entries: int, small: Li
         f"  VarIdx = {_set(variants or range(1, N_VARIANTS + 1))}\n  SfxIdx = {_set(sfx or range(1, N_SFX + 1))}\n"
         f"  Codes = {_set(codes)}\n  SmallCodes = {_set(small)}\n  MaxEntries = {max_entries}\n"
         f"  CfgSfxIdx = {_set([1, 2] if cfg_sfx is None else cfg_sfx)}\n"
+        f"  SpelledCfgSfxIdx = {_set([1] if spelled_cfg_sfx is None else spelled_cfg_sfx)}\n"
+        f"  LightVarIdx = {_set(LIGHT_VARIANTS)}\n  LightCodes = {_set(sorted(set(SMALL_QUICK + LIGHT_EXTRA) & set(codes)))}\n"
         "INVARIANT Theorems\nINVARIANT Export\n")
     key = cfg.read_text()
     if key not in _exports:
@@ -482,9 +549,12 @@ def startup_probe(chk: Check, world: World, row: Dict[str, Any], script: Path) -
 def _stratum(r: Dict[str, Any]) -> str:
     """Sampling stratum of an exported case (which cases get a real start-up; expectations stay TLC's):
     the root variant, or for the configuration family COMPONENTS.dirs not given / empty / non-empty crossed
-    with STATICFILES_DIRS empty / non-empty."""
+    with STATICFILES_DIRS empty / non-empty, and the configurations with spelled paths (dirs given / not)."""
     if r["label"] != "cfg":
         return r["label"]
+    if r["cfg"]["base"] != "plain" or any(e["spell"] != "plain" or len(e["segs"]) > 1 for e in r["cfg"]["appnames"]) or \
+            any(m["spell"] != "plain" for x in r["roots"] for m in x["src"]):
+        return "cfg:spelled:dirs-" + r["cfg"]["dirs"]
     listed = any(m["in"] == "dirs" for x in r["roots"] for m in x["src"])
     static = any(m["in"] == "static" for x in r["roots"] for m in x["src"])
     return "cfg:dirs-%s:static-%s" % ("unset" if r["cfg"]["dirs"] == "unset" else "nonempty" if listed else "empty",
@@ -513,24 +583,35 @@ def startup_checks(chk: Check, world: World, n: int) -> None:
 
 # ---------------------------------------------------------------- code -> spec: random sessions
 PROJ_CANDS = [["comps"], ["outer", "comps"], ["lib", "ui", "c"], ["assets"], ["lib", "more"], ["components"]]
-APP_CANDS = [["genapp", "components"], ["pk", "napp", "components"], ["extapp", "components"],
-             ["genapp", "ui"], ["pk", "napp", "ui"], ["extapp", "widgets"]]
-APP_NAMES = ["components", "ui", "widgets"]
+# (app package, app_dirs path): no path is a proper prefix of another one, and no first segment of a
+# multi-segment path ("parts", "sec") is itself a path - component directories never nest
+APP_CANDS = [(["genapp"], ["components"]), (["pk", "napp"], ["components"]), (["extapp"], ["components"]),
+             (["genapp"], ["ui"]), (["pk", "napp"], ["ui"]), (["extapp"], ["widgets"]),
+             (["extapp"], ["parts", "inner"]), (["pk", "napp"], ["parts", "inner"]), (["genapp"], ["sec", "w"])]
+APP_PATHS = [["components"], ["ui"], ["widgets"], ["parts", "inner"], ["sec", "w"]]
+APP_SPELLS = ["plain", "plain", "slash", "dot"]
 FORMS = ["str", "str", "path", "tuple", "tuple-path"]
+SPELLS = ["plain", "plain", "plain", "slash", "dot", "dotdot", "updown"]
 
 
-def pick_config(rnd: random.Random) -> Tuple[List[Dict[str, Any]], Dict[str, Any]]:
+def pick_config(rnd: random.Random, clean: bool = False) -> Tuple[List[Dict[str, Any]], Dict[str, Any]]:
     """Candidate directories (all of them will exist and get files) and a configuration that mentions some of
     them: COMPONENTS.dirs not given / given empty / given non-empty, crossed with STATICFILES_DIRS empty /
-    non-empty (plain and tuple form), app_dirs not given / empty / names, the default BASE_DIR/components
-    present or not, directories mentioned nowhere, COMPONENTS written as dict / dict with None / object."""
+    non-empty (plain and tuple form), app_dirs not given / empty / entries, the default BASE_DIR/components
+    present or not, directories mentioned nowhere, COMPONENTS written as dict / dict with None / object.
+    Every listed path under a random spelling (trailing slash, "." / ".." segments, through a symbolic link),
+    possibly listed twice under two spellings; app_dirs entries single- and multi-segment, with trailing slash
+    or leading "./", possibly repeated; BASE_DIR spelled with ".." or through a link.  `clean` sessions (in
+    which autodiscover() is called) avoid what leaves autodiscover() undetermined (Trace_C20!AutoOK): links,
+    repeated app_dirs entries, a spelled BASE_DIR."""
     form = rnd.choice(["dict", "dict", "dict-none", "object"])
     if rnd.random() < 0.06:
         # a project path with glob metacharacters
-        return ([{"id": "dirs-bracket", "kind": "dirs", "prefix": ["comps"], "globmeta": True,
-                  "src": [{"in": "dirs", "form": "str"}]},
-                 {"id": "app", "kind": "app", "prefix": ["extapp", "components"], "globmeta": False, "src": []}],
-                {"dirs": "set", "appdirs": "unset", "appnames": [], "form": form})
+        return ([{"id": "dirs-bracket", "kind": "dirs", "prefix": ["comps"], "app": [], "alias": [], "globmeta": True,
+                  "src": [{"in": "dirs", "form": "str", "spell": rnd.choice(["plain", "slash", "dotdot"])}]},
+                 {"id": "app", "kind": "app", "prefix": ["extapp", "components"], "app": ["extapp"], "alias": [],
+                  "globmeta": False, "src": []}],
+                {"dirs": "set", "appdirs": "unset", "appnames": [], "form": form, "base": "plain"})
     cands = rnd.sample(PROJ_CANDS, rnd.randint(1, 4))
     dirs_state = rnd.choice(["unset", "unset", "empty", "nonempty", "nonempty", "nonempty"])
     static_state = rnd.choice(["empty", "empty", "nonempty", "nonempty", "nonempty"] if dirs_state != "nonempty"
@@ -541,20 +622,29 @@ def pick_config(rnd: random.Random) -> Tuple[List[Dict[str, Any]], Dict[str, Any
         if static_state == "nonempty" else set()
     roots = []
     for i, pre in enumerate(cands):
+        alias = ["lnk", "l%d" % i] if rnd.random() < 0.35 else []
+        spells = SPELLS + (["alias", "alias", "alias"] if alias and not clean else [])
         src = []
-        if i in in_dirs:
-            src.append({"in": "dirs", "form": rnd.choice(FORMS)})
-        if i in in_static:
-            src.append({"in": "static", "form": rnd.choice(FORMS)})
+        for where, chosen in (("dirs", in_dirs), ("static", in_static)):
+            if i in chosen:
+                src.append({"in": where, "form": rnd.choice(FORMS), "spell": rnd.choice(spells)})
+                if rnd.random() < 0.25:        # the same directory once more, under another spelling
+                    src.append({"in": where, "form": rnd.choice(FORMS), "spell": rnd.choice(spells)})
         if pre == ["components"]:
-            src.append({"in": "default", "form": ""})
-        roots.append({"id": "p:" + "/".join(pre), "kind": "dirs", "prefix": pre, "globmeta": False, "src": src})
-    for pre in rnd.sample(APP_CANDS, rnd.choice([0, 1, 1, 2, 3])):
-        roots.append({"id": "a:" + "/".join(pre), "kind": "app", "prefix": pre, "globmeta": False, "src": []})
-    app_state = rnd.choice(["unset", "unset", "unset", "empty", "names", "names"])
-    names = rnd.sample(APP_NAMES, rnd.randint(1, 3)) if app_state == "names" else []
+            src.append({"in": "default", "form": "", "spell": "plain"})
+        roots.append({"id": "p:" + "/".join(pre), "kind": "dirs", "prefix": pre, "app": [], "alias": alias,
+                      "globmeta": False, "src": src})
+    for app, path in rnd.sample(APP_CANDS, rnd.choice([0, 1, 1, 2, 3])):
+        roots.append({"id": "a:" + "/".join(app + path), "kind": "app", "prefix": app + path, "app": app, "alias": [],
+                      "globmeta": False, "src": []})
+    app_state = rnd.choice(["unset", "unset", "unset", "empty", "names", "names", "names"])
+    names = [{"segs": p, "spell": rnd.choice(APP_SPELLS)} for p in rnd.sample(APP_PATHS, rnd.randint(1, 3))] \
+        if app_state == "names" else []
+    if names and not clean and rnd.random() < 0.2:      # an entry repeated under another spelling
+        names.insert(rnd.randrange(len(names) + 1), {"segs": rnd.choice(names)["segs"], "spell": rnd.choice(APP_SPELLS)})
+    base = rnd.choice(["dotdot", "alias"]) if not clean and rnd.random() < 0.12 else "plain"
     cfg = {"dirs": "unset" if dirs_state == "unset" else "set", "appdirs": "unset" if app_state == "unset" else "set",
-           "appnames": names, "form": form}
+           "appnames": names, "form": form, "base": base}
     return roots, cfg
 
 
@@ -569,7 +659,7 @@ SCAN_SFX = [".py", ".py", "", ".js", ".pyx", ".css", ".html"]
 
 def record_session(rnd: random.Random, tid: int, world: World) -> Dict[str, Any]:
     clean = rnd.random() < 0.45                 # sessions in which autodiscover() can be called
-    roots, cfg = pick_config(rnd)
+    roots, cfg = pick_config(rnd, clean)
     if clean and any(r["globmeta"] for r in roots):
         clean = False
     world.reset(roots)
@@ -611,10 +701,7 @@ def record_session(rnd: random.Random, tid: int, world: World) -> Dict[str, Any]
 
     def scan() -> None:
         sfx = rnd.choice(SCAN_SFX)
-        try:
-            got = obs_scan(world, sfx)
-        except Exception as e:  # noqa: BLE001
-            got = [{"k": 0, "parts": ["<" + type(e).__name__ + ">"], "dot": ""}]
+        got = scan_or_raise(world, sfx)
         events.append({"op": "scan", "sfx": sfx, "got": got})
         if sfx == ".py":
             for r in got:
@@ -891,7 +978,27 @@ def selftest(tier: str) -> int:
         d = (Path(settings.BASE_DIR) / "components").resolve()
         return res + [d] if not given and settings.STATICFILES_DIRS and d not in res else res
 
+    class NoResolvePath(type(Path())):
+        """Path whose resolve() does nothing: get_component_dirs keeps the directories as they are written."""
+
+        def resolve(self, strict=False):
+            return self
+
+    def raw_app_dir_module(file_path, root_fs_path, root_module_path):
+        """The dotted path of an app file built from the app_dirs entry as written (app + "." + entry)."""
+        from pathlib import PurePosixPath
+        if root_module_path:
+            for app_dir in ld.app_settings.APP_DIRS:
+                comps = Path(root_fs_path).joinpath(app_dir)
+                if comps in Path(file_path).parents:
+                    rel = PurePosixPath(file_path).relative_to(PurePosixPath(comps))
+                    full = ".".join([f"{root_module_path}.{app_dir}", *rel.with_suffix("").parts])
+                    return full[:-9] if full.endswith(".__init__") else full
+        return to_module()(file_path, root_fs_path, root_module_path)
+
     probes = [
+        ("component-dirs-not-normalised (no resolve)", lambda: patch(ld, "Path", NoResolvePath)),
+        ("app-dot-path-from-raw-app_dirs-entry", lambda: patch(ld, "_filepath_to_python_module", raw_app_dir_module)),
         ("empty-COMPONENTS.dirs-treated-as-not-given", with_setting(empty_dirs_as_unset)),
         ("empty-app_dirs-treated-as-not-given", app_dirs_with(lambda v: v or ["components"])),
         ("STATICFILES_DIRS-searched-besides-COMPONENTS.dirs", dirs_with(static_added)),
@@ -940,11 +1047,27 @@ def selftest(tier: str) -> int:
                     self.keyed += 1
                 super().violation(case, detail, key)
 
+        class ResolvedBase:
+            """django.conf.settings as the loader sees it, BASE_DIR normalised (proposed fix for
+            base-dir-not-normalised)."""
+
+            def __init__(self, real):
+                self._real = real
+
+            def __getattr__(self, name):
+                v = getattr(self._real, name)
+                return Path(v).resolve() if name == "BASE_DIR" and v else v
+
+        def unique_dirs(v):                    # proposed fix for app_dirs-entry-repeated: each directory once
+            return list({Path(x): x for x in reversed(v)}.values())[::-1]
+
         chk = Counting(PID, "quick", "other", silent=True)
-        with patch(ld, "_search_dirs", search_dirs(orig_keep, escape=True, files_only=True)):
+        with patch(ld, "_search_dirs", search_dirs(orig_keep, escape=True, files_only=True)), \
+                patch(ld, "settings", ResolvedBase(ld.settings)), \
+                patch(ld, "app_settings", AppDirsProxy(ld.app_settings, unique_dirs)):
             body(chk)
         ok = chk.violations == 0 and chk.keyed == 0
-        print(f"  proposed fixes (glob.escape + is_file) applied in-process: violations={chk.violations} "
+        print(f"  proposed fixes (glob.escape + is_file, BASE_DIR resolved, app dirs once) applied in-process: violations={chk.violations} "
               f"known-finding cases={chk.keyed} -> {'clean' if ok else 'NOT CLEAN'}")
     finally:
         world.close()
